@@ -1,0 +1,47 @@
+//! Verification hook: read-only structural dump of a `World` (only with `--cfg brood_verif`).
+
+use super::World;
+use crate::{
+    registry,
+    verif::{
+        Dump,
+        SlotDump,
+    },
+};
+
+impl<Registry, Resources> World<Registry, Resources>
+where
+    Registry: registry::Registry,
+{
+    /// Returns a plain-data description of this world's internal structure.
+    ///
+    /// Addresses are reported as integers and never dereferenced by this method beyond what the
+    /// world itself owns.
+    #[must_use]
+    pub fn verif_dump(&self) -> Dump {
+        let (archetypes, type_id_lookup, foreign_identifier_lookup) = self.archetypes.verif_dump();
+        Dump {
+            len: self.len,
+            registry_len: Registry::LEN,
+            slots: self
+                .entity_allocator
+                .slots
+                .iter()
+                .map(|slot| SlotDump {
+                    generation: slot.generation,
+                    location: slot.location.map(|location| {
+                        (
+                            // SAFETY: Only the address of the slice is used.
+                            unsafe { location.identifier.as_slice() }.as_ptr() as usize,
+                            location.index,
+                        )
+                    }),
+                })
+                .collect(),
+            free: self.entity_allocator.free.iter().copied().collect(),
+            archetypes,
+            type_id_lookup,
+            foreign_identifier_lookup,
+        }
+    }
+}
